@@ -294,20 +294,39 @@ func Sleep(d time.Duration) {
 	Park("sleep-wake")
 }
 
-// Stall marks the task with the given name prefix as not schedulable for d of simulated time.
+// Stall holds back, for d of simulated time, every task whose name starts with namePrefix: those alive now
+// and those created during the window (a "slow node" fault for a class of goroutines).
 func Stall(namePrefix string, d time.Duration) int {
 	mu.Lock()
 	defer mu.Unlock()
 	n := 0
 	until := time.Now().Add(d)
+	stallRules = append(stallRules, stallRule{namePrefix, until})
 	for _, t := range tasks {
 		if t.st != stDone && strings.HasPrefix(t.name, namePrefix) {
-			t.stalled = until
 			n++
 		}
 	}
-	stats["stalls"] += uint64(n)
+	stats["stalls"]++
 	return n
+}
+
+type stallRule struct {
+	prefix string
+	until  time.Time
+}
+
+var stallRules []stallRule
+
+// stalledUntilLocked returns the end of the stall that applies to t at instant now (zero if none).
+func stalledUntilLocked(t *Task, now time.Time) time.Time {
+	var end time.Time
+	for _, r := range stallRules {
+		if now.Before(r.until) && strings.HasPrefix(t.name, r.prefix) && r.until.After(end) {
+			end = r.until
+		}
+	}
+	return end
 }
 
 // SetOpBudget arms the hang detector: if the simulated clock passes now+d before ClearOpBudget the
@@ -360,10 +379,11 @@ func Run(main func()) {
 				t.st = stBlockedExt
 			}
 			if t.st == stRunnable {
-				if !t.stalled.IsZero() && now.Before(t.stalled) {
-					if nextStallEnd.IsZero() || t.stalled.Before(nextStallEnd) {
-						nextStallEnd = t.stalled
+				if end := stalledUntilLocked(t, now); !end.IsZero() {
+					if nextStallEnd.IsZero() || end.Before(nextStallEnd) {
+						nextStallEnd = end
 					}
+					stats["stalled_decisions"]++
 					continue
 				}
 				runnable = append(runnable, t)
